@@ -469,6 +469,7 @@ def list_comp(ex, node):
 
 # ------------------------------------------------------------------ builtin calls
 BUILTINS = {}
+NO_RESOLVE = {'hash'}
 
 
 def builtin(*names):
@@ -489,7 +490,8 @@ def call_builtin(ex, fn, args, kwargs, node):
             ex.used_assumptions.add('A-LOG')
             return NONE
         ex.limit(f'no model for builtin {name}', node)
-    args = [ex.res(a) for a in args]
+    if name not in NO_RESOLVE:
+        args = [ex.res(a) for a in args]
     return f(ex, fn, args, kwargs, node)
 
 
@@ -1082,7 +1084,7 @@ def _lower(ex, fn, args, kw, node):
     which = fn.name.split('.')[1]
     if c is not None:
         return VStr(getattr(c, which)())
-    f = z3.Function('str_' + ('lower' if which == 'casefold' else which), z3.StringSort(), z3.StringSort())
+    f = z3.Function('str_' + which, z3.StringSort(), z3.StringSort())
     r = f(s.t)
     ex.assume(f(r) == r)     # idempotent
     ex.assume(z3.Length(r) == z3.Length(s.t))
@@ -1256,3 +1258,48 @@ def _anyall(ex, fn, args, kw, node):
         ex.limit(f'{fn.name}() over symbolic sequence', node)
     ts = [tobool(ex.truth(i)) for i in items]
     return VBool(tobool(zor(ts) if fn.name == 'any' else zand(ts)))
+
+
+hash_str = z3.Function('hash_str', z3.StringSort(), z3.IntSort())
+hash_int = z3.Function('hash_int', z3.IntSort(), z3.IntSort())
+hash_obj = z3.Function('hash_obj', z3.IntSort(), z3.IntSort())
+HASH_NONE = z3.Int('hash_None')
+
+
+def hash_term(ex, v, node=None):
+    v0 = v
+    if ex.is_unresolved(v):
+        # If-chain over the alternatives
+        alts = v.alts
+        t = hash_term(ex, alts[-1][1], node)
+        for g, x in reversed(alts[:-1]):
+            t = z3.If(g, hash_term(ex, x, node), t)
+        return t
+    v = ex.res(v)
+    if isinstance(v, VNone):
+        return HASH_NONE
+    if isinstance(v, VStr):
+        return hash_str(v.t)
+    if isinstance(v, (VInt, VBool)):
+        return hash_int(ex.flat(v, 'int'))
+    if isinstance(v, VOpaque):
+        ex.used_assumptions.add('A-BUILTIN: hash(obj) is a function of the value == compares (lawful __hash__ of nested objects)')
+        return hash_obj(absval(v.t))
+    if isinstance(v, VTuple):
+        f = z3.Function(f'hash_tuple{len(v.items)}', *([z3.IntSort()] * (len(v.items) + 1)))
+        return f(*[hash_term(ex, x, node) for x in v.items]) if v.items else z3.Int('hash_empty_tuple')
+    if isinstance(v, VPtr):
+        c = ex.cell(v)
+        if isinstance(c, (ListCell, DictCell, MapCell)):
+            ex.raise_('TypeError', node)
+        if isinstance(c, ObjCell):
+            info = ex.find_class(c.cls)
+            m = info.find_method('__hash__') if info is not None else None
+            if m is not None:
+                return ex.flat(ex.res(ex.call_function(m, [v], {}, node)), 'int')
+    ex.limit(f'hash of {v0}', node)
+
+
+@builtin('hash')
+def _hash(ex, fn, args, kw, node):
+    return VInt(hash_term(ex, args[0], node))
